@@ -248,21 +248,23 @@ example : (shrinkTree (.node ⟨1, 9⟩ [.leaf ⟨1, 2⟩, .leaf ⟨4, 6⟩])).s
 /-! ## The tokenizer (`GluonModel.Tokenizer`, a byte-level transcription of parser/src/token.rs +
 str_suffix.rs in which every slice / `restore_char` / `unwrap` is a checked operation)
 
-Full statement wanted (NOT proved yet; checked only by the exact correspondence with the real
+Full statement wanted (NOT proved in this form; checked by the exact correspondence with the real
 tokenizer, which never showed `panic`/`hang`/`fuel`):
 
     theorem tokenize_total (cs : List Nat) (h : ∀ c ∈ cs, isScalar c) :
         ∃ l, (tokenize (encodeAll cs).toArray).fin = .eof l
 
-(for every text the calls of `next` reach `EOF` within `len + 1` calls, never `panic`/`hang`),
-plus `token_spans_in_bounds` / `token_spans_ordered` for the items of that stream.  Proved below
-(the `_partial` of it): the UTF-8 layer the whole argument rests on, and totality of the three
-scanners that call `restore_char` on a consumed byte — where every tokenizer panic found so far
-(D13, D22) happened.  Missing: the same `Lands` statement for string / raw string / numeric /
-identifier / operator / comment / shebang scanners (their scans are covered by
-`scan_*_keeps_boundary`, their slices by `slice_between_boundaries_ok`; the composition, the
-`f64`/hex side conditions of `numeric_literal` and the `"`…`#` arithmetic of raw strings are not
-done) and the dispatcher `next` / the loop `run`. -/
+    theorem token_spans_in_bounds …  : every item's start/end is a scalar boundary, start ≤ end ≤ len
+    theorem token_spans_weakly_ordered … : end of item i ≤ start of item i+1
+
+Proved below: `tokenize_total_partial` = the statement above under the single hypothesis
+`NumericTotal` (the scanner `numeric_literal` returns on a scalar boundary); unconditionally for
+every text without decimal digits (`tokenize_total_digit_free`); `next_total_partial` for one
+call.  Every other scanner and the dispatcher are proved (Proofs/TokenizerAll.lean).  Missing for
+`NumericTotal`: `float.parse().unwrap()` needs "the slice is `-?digits.digits*`" and
+`to_digit(16).expect` needs "all bytes the scan stepped over are hex digits" (`scanUntil_over`
+gives the pointwise fact; the list-level `takeWhile`/`dropWhile` decomposition is not done).
+The span theorems are not proved (the scanner statements carry the end position only). -/
 section Tokenizer
 open GluonModel.Tokenizer
 
